@@ -11,7 +11,7 @@
    IsBanned / IsAllowed on an expired entry are entries of a pending list executed by separate runner
    threads in any order at any later point.
    current_variant = the code after fixes/C18-unban-only-if-expired.diff, fixes/C18-ban-never-weakened.diff and
-                     fixes/C18-anon-registration-keeps-failures.diff;
+                     fixes/C18-anon-registration-keeps-failures.diff, fixes/C18-blacklist-any-active-entry.diff;
    pinned_variant  = the tree as found (spawned unban deletes whatever record is present; banIP overwrites).
    Definitions only; proofs are in Proofs/Lockout.v. *)
 From Coq Require Export ZArith.
@@ -20,10 +20,15 @@ Open Scope Z_scope.
 
 Record variant := { cond_unban : bool;      (* spawned unban deletes only a record that is still expired *)
                     keep_stronger : bool;   (* banIP never replaces a ban by a weaker one *)
-                    anon_resets : bool }.   (* handleFirstConnection calls RecordSuccess (clears the failure record
+                    anon_resets : bool;     (* handleFirstConnection calls RecordSuccess (clears the failure record
                                                although no credential was proven) *)
-Definition current_variant := {| cond_unban := true; keep_stronger := true; anon_resets := false |}.
-Definition pinned_variant := {| cond_unban := false; keep_stronger := false; anon_resets := true |}.
+                    first_match : N }.      (* 0: IsAllowed refuses iff SOME matching blacklist record is in force
+                                               (findActiveInList); 1, 2: it judges by the FIRST matching record only
+                                               (findInList: the exact key, then the ranges in map order - order 1 or 2) *)
+Definition current_variant :=
+  {| cond_unban := true; keep_stronger := true; anon_resets := false; first_match := 0%N |}.
+Definition pinned_variant :=
+  {| cond_unban := false; keep_stronger := false; anon_resets := true; first_match := 1%N |}.
 
 Record cfg := { maxf : Z; window : Z; band : Z; perm : Z;      (* BruteForceConfig *)
                 rate : Z; burst : Z; ttl : Z; tps : Z }.       (* RateLimitConfig (ip level); ticks per second *)
@@ -128,19 +133,36 @@ Definition init_sh : sh :=
   {| now := 0; fails := fun _ => None; bans := fun _ => None; pend := []; bl := fun _ => None; pendbl := [];
      wl := fun _ => false; bk := fun _ => None |}.
 
-(* IPManager.findInList: the exact key first, else the CIDR entry that contains the address.  Addresses are
-   numbers < 1000; the CIDR entry containing address a has key 1000 + a/16 (the harness maps key 1000+g to
-   10.1.0.(16g)/28 and address a to 10.1.0.a); a key >= 1000 is its own group, so a CIDR key is only ever
-   matched exactly.  (The code iterates a Go map: with several overlapping CIDR entries the record found
-   is not determined; the model has one CIDR entry per address.) *)
-Definition cidr_of (ip : N) : N := if (ip <? 1000)%N then (1000 + ip / 16)%N else ip.
-Definition rec_key (m : emap) (ip : N) : N := match m ip with Some _ => ip | None => cidr_of ip end.
-Definition wl_in (w : N -> bool) (ip : N) : bool := w ip || w (cidr_of ip).
+(* list keys that match an address (IPManager.findInList / findActiveInList): its exact key and the CIDR entries
+   containing it.  Addresses are numbers < 1000; address a lies in the /28 with key 1000 + a/16 and in the /27
+   with key 2000 + a/32 (the harness maps them to 10.1.0.(16g)/28, 10.1.0.(32g)/27 and 10.1.0.a): ranges overlap,
+   every /28 inside a /27.  A key >= 1000 matches only itself. *)
+Definition keys_of (ip : N) : list N :=
+  if (ip <? 1000)%N then [ip; (1000 + ip / 16)%N; (2000 + ip / 32)%N] else [ip].
+(* the order in which the first-match lookup of the pinned tree meets them (Go map order: either) *)
+Definition match_order (o : N) (ip : N) : list N :=
+  if (ip <? 1000)%N
+  then match o with 2%N => [ip; (2000 + ip / 32)%N; (1000 + ip / 16)%N] | _ => keys_of ip end
+  else [ip].
+Definition wl_in (w : N -> bool) (ip : N) : bool := existsb w (keys_of ip).
+Definition has_rec (m : emap) (k : N) : bool := match m k with Some _ => true | None => false end.
 
 (* what IsBanned / IsAllowed answer in a state *)
 Definition is_banned (s : sh) (ip : N) : bool := in_force (now s) (bans s) ip.
 Definition is_allowed (s : sh) (ip : N) : bool :=
-  wl_in (wl s) ip || negb (in_force (now s) (bl s) (rec_key (bl s) ip)).
+  wl_in (wl s) ip || negb (existsb (in_force (now s) (bl s)) (keys_of ip)).
+
+(* IsAllowed: (keys of the expired records whose asynchronous removal it spawns, answer) *)
+Definition allowed_dec (V : variant) (s : sh) (ip : N) : list N * bool :=
+  if wl_in (wl s) ip then ([], true)
+  else match first_match V with
+       | 0%N => (filter (has_expired (now s) (bl s)) (keys_of ip),
+                 negb (existsb (in_force (now s) (bl s)) (keys_of ip)))
+       | o => match find (has_rec (bl s)) (match_order o ip) with
+              | None => ([], true)
+              | Some k => if has_expired (now s) (bl s) k then ([k], true) else ([], false)
+              end
+       end.
 
 (* a process restart: everything held in memory only is gone (failure records, bans, spawned goroutines,
    buckets); the black/white lists are rebuilt from the store (NewIPManager -> loadFromStorage), where a
@@ -220,9 +242,8 @@ Section Step.
     | CWlAdd ip => (PIdle, set_wl s (upd (wl s) ip true), Some 0%N)
     | CWlRm ip => (PIdle, set_wl s (upd (wl s) ip false), Some 0%N)
     | CAllowed ip =>
-        if negb (wl_in (wl s) ip) && has_expired (now s) (bl s) (rec_key (bl s) ip)
-        then (PIdle, set_bl s (bl s) (pendbl s ++ [rec_key (bl s) ip]), Some 1%N)
-        else (PIdle, s, Some (nb (is_allowed s ip)))
+        let r := allowed_dec V s ip in
+        (PIdle, set_bl s (bl s) (pendbl s ++ fst r), Some (nb (snd r)))
     | CBlCleanup => (PIdle, set_bl s (sweep (now s) (bl s)) (pendbl s), Some 0%N)
     | CAllowIP ip n =>
         let '(b, ok) := take C (now s) n (bk s ip) in
@@ -230,9 +251,9 @@ Section Step.
     | CRlCleanup => (PIdle, set_bk s (fun k => bucket_gc C (now s) (bk s k)), Some 0%N)
     | CHs ip k =>
         (* gate 1: ipManager.IsAllowed *)
-        if negb (wl_in (wl s) ip) && has_expired (now s) (bl s) (rec_key (bl s) ip)
-        then (PHs2 ip k, set_bl s (bl s) (pendbl s ++ [rec_key (bl s) ip]), None)
-        else if is_allowed s ip then (PHs2 ip k, s, None) else (PIdle, s, Some 0%N)
+        let r := allowed_dec V s ip in
+        let s' := set_bl s (bl s) (pendbl s ++ fst r) in
+        if snd r then (PHs2 ip k, s', None) else (PIdle, s', Some 0%N)
     | CRestart => (PIdle, restart s, Some 0%N)
     end.
 
